@@ -157,8 +157,17 @@ class Gen:
                 cost = rng.randrange(lo, hi + 1)
                 if ignore and rng.random() < 0.07:
                     cost = 0          # an effective cost of exactly 0 (no internal cost, Config.Cost returns 0)
-                ops.append(["set", k, c, self.fresh(), cost, ttl])
-                pending_sets += 1
+                if rng.random() < 0.12:
+                    # an explicit non-zero cost (Config.Cost not consulted, the applier does not wait at the gate), now and
+                    # then at or beyond MaxCost
+                    if len(hashes) <= 14 and rng.random() < 0.3:
+                        # (only where the estimates are pairwise distinct: an oversize resident forces evictions, and among
+                        # equal estimates Go's map order would pick the victim)
+                        cost = rng.choice([max_cost, max_cost + 1, 10 * max_cost])
+                    ops.append(["set", k, c, self.fresh(), max(cost, 1), ttl, "x"])
+                else:
+                    ops.append(["set", k, c, self.fresh(), cost, ttl])
+                    pending_sets += 1
             elif r < 0.50:
                 ops.append(["get", k, c])
             elif r < 0.62:
